@@ -15,7 +15,8 @@ PROPS = {
     "C02": mk(["the certificate rules are proved on Dsig.v (model of the pinned goxmldsig v1.5.0) and this check also runs the DSIG correspondence stream against the real library (stage-exact observables through go:linkname)",
                "certificate membership / validity-window rules are goxmldsig's (dependency); gosaml2's part - which store and which clock reach it, and that only ErrMissingSignature continues - is what is proved and corresponded"]),
     "C04": mk(),
-    "C07": mk(["binding of decryption to the SP key (recipient certificate equality, certificate window) is covered by the decrypt-chain model of Decrypt.v/Keys.v; here it is the decrypt oracle"]),
+    "C07": dict(mk(["binding of decryption to the SP key: the certificate-window rule is proved on Keys.v (getDecryptCert) and the recipient-certificate rule on Decrypt.v (DecryptBytes); both models are corresponded with the implementation by the C09/C11/C19 streams and exercised here by the decryption-binding stream on long-lived SP instances"]),
+                model_files=TREE_MODEL + ["Keys", "Decrypt", "P_C07"]),
     "C08": mk(["acceptance of every conforming layout is established by the correspondence run and the spec oracle over the generated layouts (partial as a theorem: it needs a canonicalisation model, see DESIGN.md)"]),
     "C10": mk(),
     "C20": mk(["the pre-decoder is xml.Unmarshal on the raw bytes: modelled as the schema interpreter on the raw token view (duplicate attributes preserved)"]),
